@@ -159,7 +159,7 @@ def rule_r3(ctx):
 
 def rule_r4(ctx):
     r = ctx.rule("C13.R4", "T1", "header capacity: in nni_msg_header_append/insert every write to m_header_buf / m_header_len "
-                 "is dominated by the edge len + m_header_len <= sizeof(m_header_buf); trim/chop by len <= m_header_len", floor=8)
+                 "is dominated by the edge len <= sizeof(m_header_buf) - m_header_len (or the equivalent sum form); trim/chop by len <= m_header_len", floor=8)
     prog = ctx.prog
     for name, kind in (("nni_msg_header_append", "grow"), ("nni_msg_header_insert", "grow"),
                        ("nni_msg_header_trim", "shrink"), ("nni_msg_header_chop", "shrink")):
@@ -174,6 +174,15 @@ def rule_r4(ctx):
             if kind == "grow":
                 if "sizeof" in show(l) and "m_header_len" in show(rr):
                     l, rr, op = rr, l, {">": "<", "<": ">", ">=": "<=", "<=": ">="}[op]
+                # the room-left form: len <= sizeof(buf) - m_header_len (either operand order)
+                def room(x):
+                    return x.get("k") == "bin" and x.get("op") == "-" and "sizeof" in show(x["lhs"]) and "m_header_len" in show(x["rhs"])
+                if room(l) and not room(rr):
+                    l, rr, op = rr, l, {">": "<", "<": ">", ">=": "<=", "<=": ">="}[op]
+                if room(rr) and "m_header_len" not in show(l):
+                    if (op == "<=" and val) or (op == ">" and not val):
+                        ok_edges[bid] = k
+                    continue
                 if not ("m_header_len" in show(l) and "sizeof" in show(rr)):
                     continue
             else:
